@@ -160,7 +160,8 @@ def run_case(spec0):
                             and a not in want]
                 if cand_abs:
                     absent = cand_abs[int(rng.integers(len(cand_abs)))]
-                    want = list(want) + [absent]
+                    want = list(want)
+                    want.insert(int(rng.integers(len(want) + 1)), absent)    # first, last or in between
             it_arg, vars_arg, par_snap = list(req), list(want), dict(param)
             try:
                 with common.Quiet():
